@@ -151,6 +151,30 @@ pub fn run(tier: &str) -> i32 {
             }
         }
 
+        // (g) a multi-byte character put at every position of an authentic token (replacing the character
+        //     there, and inserted before it): 2-, 3- and 4-byte code points, so that some code point straddles
+        //     every byte offset the parser might cut the text at
+        if let Some(t) = short.issue().ok() {
+            let chars: Vec<char> = t.chars().collect();
+            for i in 0..=chars.len() {
+                for mb in ['\u{00e9}', '\u{20ac}', '\u{1f642}'] {
+                    for replace in [true, false] {
+                        if replace && i == chars.len() {
+                            continue;
+                        }
+                        let mut v: Vec<char> = chars[..i].to_vec();
+                        v.push(mb);
+                        v.extend_from_slice(&chars[if replace { i + 1 } else { i }..]);
+                        let m: String = v.into_iter().collect();
+                        for exp in &footers_expected {
+                            present_one(&mut acc, "g-multibyte-at-every-position", *p, *l, &key.pk, &m, exp, &None);
+                        }
+                        acc.choice_points += 1;
+                    }
+                }
+            }
+        }
+
         // (c) 0..=6 segments over a 7-element segment alphabet
         let hdr: Vec<&str> = p.header().trim_end_matches('.').split('.').collect();
         let valid_payload = b64::encode(&vec![0u8; 120]);
@@ -230,7 +254,7 @@ pub fn run(tier: &str) -> i32 {
             }
         }
         if acc.samples.is_empty() {
-            acc.sample(json!({"entry": format!("{}/{}", p.name(), l.name()), "example_input": format!("{}{}", p.header(), b64::encode(&[0u8; 5])), "families": ["a-header+every-length", "b-prefix", "c-segments", "d-hostile", "e-hostile-payload"]}));
+            acc.sample(json!({"entry": format!("{}/{}", p.name(), l.name()), "example_input": format!("{}{}", p.header(), b64::encode(&[0u8; 5])), "families": ["a-header+every-length", "b-prefix", "c-segments", "d-hostile", "e-hostile-payload", "g-multibyte-at-every-position"]}));
         }
         acc
     });
@@ -255,7 +279,7 @@ pub fn run(tier: &str) -> i32 {
         crate::report::machinery_error("C09: no input at all was accepted (the full-length prefixes and right-length hex keys must be): vacuous");
     }
     let extra = json!({
-        "space": "24 entry points x {8 headers + every decoded length 0..=400 x 3 fillings x 4 footer-segment forms x 2 expected footers; every prefix of an authentic token; all strings of 0..=N segments over a 7-element segment alphabet; hostile strings incl. 1 MiB; authentic tokens with hostile payloads}; Key::<N>::try_from for N in {24,32,48,49,64} x every hex length 0..=200",
+        "space": "24 entry points x {8 headers + every decoded length 0..=400 x 3 fillings x 4 footer-segment forms x 2 expected footers; every prefix of an authentic token; a 2/3/4-byte character replacing / inserted at every position of an authentic token; all strings of 0..=N segments over a 7-element segment alphabet; hostile strings incl. 1 MiB; authentic tokens with hostile payloads}; Key::<N>::try_from for N in {24,32,48,49,64} x every hex length 0..=200",
         "max_segments": if quick { 5 } else { 6 },
         "distinct_rule": "distinct (entry point, input, expected footer, assertion)",
         "caps_hit": [],
